@@ -14,7 +14,7 @@ echo "== $pid change_$i"
 ( cd "$wt" && PYTHONPATH="$wt" timeout 300 /venv/bin/python "$demo" >/dev/null 2>&1 ); echo "demo on clean tree: exit $?"
 git -C "$wt" apply "$patch" || { echo "PATCH DOES NOT APPLY"; exit 3; }
 ( cd "$wt" && PYTHONPATH="$wt" timeout 300 /venv/bin/python "$demo" >/dev/null 2>&1 ); echo "demo on patched tree: exit $?"
-/venv/bin/python tools/baseline.py "$wt" 2>&1 | tail -3
+[ -n "$SKIP_BASELINE" ] || /venv/bin/python tools/baseline.py "$wt" 2>&1 | tail -3
 for c in $pid "$@"; do
   KV_REPO="$wt" KV_OUT="$out" ./check "$c" ${TIER:-quick} 2>&1 | grep -E "^(VIOLATION|INCONCLUSIVE|C[0-9]+ )" | cut -c1-330 | head -${MUT_LINES:-5}
 done
